@@ -88,7 +88,7 @@ def checkFacts : CheckFacts :=
     convTypedChecked := true, reprConstValue := true, boolConvChecked := true, foldLogical := true,
     cmpNotPushed := true, lenConstString := true, runeLitKeepsType := true, f32Direct := true,
     shiftBoolGuard := true, addSkipsUntyped := true, operandTypeWins := true, codepointChecked := true,
-    lenAnyConstString := true, litBitsMax := some 512 }
+    lenAnyConstString := true, litBitsMax := some 512, shiftUntypedInt := true }
 
 /-- the same before those repairs (what the extractor emits for a tree in which all of them are reverted) -/
 def checkFactsBeforeR3 : CheckFacts :=
@@ -98,7 +98,7 @@ def checkFactsBeforeR3 : CheckFacts :=
     convTypedChecked := false, reprConstValue := false, boolConvChecked := false, foldLogical := false,
     cmpNotPushed := false, lenConstString := false, runeLitKeepsType := false, f32Direct := true,
     shiftBoolGuard := false, addSkipsUntyped := false, operandTypeWins := false, codepointChecked := false,
-    lenAnyConstString := false, litBitsMax := none }
+    lenAnyConstString := false, litBitsMax := none, shiftUntypedInt := false }
 
 def evalFacts : EvalFacts :=
   { constOp := constOp, folds := folds, quo := quoSwitch, fixSkipsConst := true, constToken := constToken, chk := checkFacts }
@@ -114,7 +114,10 @@ def evalFactsBeforeR3 : EvalFacts :=
 /-- the checks before the repairs of the fifth round (a1f1717 … 2988c87) -/
 def checkFactsBeforeR5 : CheckFacts :=
   { checkFacts with shiftBoolGuard := false, addSkipsUntyped := false, operandTypeWins := false, codepointChecked := false,
-                    lenAnyConstString := false, litBitsMax := none }
+                    lenAnyConstString := false, litBitsMax := none, shiftUntypedInt := false }
+
+/-- the facts before 287aa9d (round 6): a constant shift of an untyped constant keeps the type of its left operand -/
+def evalFactsBeforeR6 : EvalFacts := { evalFacts with chk := { checkFacts with shiftUntypedInt := false } }
 
 /-- the facts before the repairs of the fifth round -/
 def evalFactsBeforeR5 : EvalFacts := { evalFacts with folds := foldsBeforeR5, chk := checkFactsBeforeR5 }
